@@ -6,7 +6,9 @@
 // (which is cross-checked against the generator on every case).
 #include "parser_check.hpp"
 
+#include <cerrno>
 #include <climits>
+#include <cstdint>
 
 using namespace pc;
 
@@ -167,20 +169,34 @@ static void renderings(bool shorts, const std::vector<AItem>& as, F&& f)
     }
 }
 
-static bool decimal_int(const std::string& s, long& out)
+// canonical decimal text: optional '-', digits; classify by the widest type that holds it
+struct Dec
 {
-    size_t i = 0;
-    if (s.empty())
-        return false;
-    if (s[0] == '-')
-        i = 1;
-    if (i == s.size() || s.size() - i > 9)
-        return false;
+    bool is_decimal = false, fits_int = false, fits_ll = false, fits_ull = false;
+    long long ll = 0;
+    unsigned long long ull = 0;
+};
+static Dec decimal(const std::string& s)
+{
+    Dec d;
+    size_t i = s.size() && s[0] == '-' ? 1 : 0;
+    if (i == s.size() || s.size() - i > 20)
+        return d;
     for (size_t k = i; k < s.size(); k++)
         if (!isdigit(static_cast<unsigned char>(s[k])))
-            return false;
-    out = atol(s.c_str());
-    return true;
+            return d;
+    d.is_decimal = true;
+    errno = 0;
+    d.ll = strtoll(s.c_str(), nullptr, 10);
+    d.fits_ll = errno == 0;
+    d.fits_int = d.fits_ll && d.ll >= INT_MIN && d.ll <= INT_MAX;
+    if (i == 0)
+    {
+        errno = 0;
+        d.ull = strtoull(s.c_str(), nullptr, 10);
+        d.fits_ull = errno == 0;
+    }
+    return d;
 }
 
 static ParserCheck make_check()
@@ -191,23 +207,33 @@ static ParserCheck make_check()
         (void)D;
         if (!r.ok)
             return;
-        long want;
         auto o = r.opt.find("opt");
-        if (o != r.opt.end() && o->second && decimal_int(*o->second, want))
+        if (o != r.opt.end() && o->second)
         {
-            if (args.as<int>("opt") != static_cast<int>(want) || args.as<long>("opt") != want)
-                out.push_back({ "typed-access", "as<int>/as<long>(opt) for text '" + *o->second + "' gives " +
-                                                    std::to_string(args.as<long>("opt")) });
-            if (args.as<std::string>("opt") != *o->second)
+            Dec d = decimal(*o->second);
+            const std::string& t = *o->second;
+            if (d.fits_int && args.as<int>("opt") != static_cast<int>(d.ll))
+                out.push_back({ "typed-access", "as<int>(opt) for text '" + t + "' gives " + std::to_string(args.as<int>("opt")) });
+            if (d.fits_ll && (args.as<long>("opt") != static_cast<long>(d.ll) || args.as<long long>("opt") != d.ll))
+                out.push_back({ "typed-access", "as<long>/as<long long>(opt) for text '" + t + "' gives " + std::to_string(args.as<long long>("opt")) });
+            if (d.fits_ull && (args.as<unsigned long long>("opt") != d.ull || args.as<std::size_t>("opt") != static_cast<std::size_t>(d.ull)))
+                out.push_back({ "typed-access", "as<unsigned long long>(opt) for text '" + t + "' gives " + std::to_string(args.as<unsigned long long>("opt")) });
+            if (d.is_decimal && args.as<std::string>("opt") != t)
                 out.push_back({ "typed-access", "as<std::string>(opt) differs from the text" });
+            if (t == "2.5" && args.as<double>("opt") != 2.5)
+                out.push_back({ "typed-access", "as<double>(opt) for text '2.5' gives " + std::to_string(args.as<double>("opt")) });
         }
         auto m = r.multi.find(N_MULTI);
         if (m != r.multi.end())
-            for (size_t i = 0; i < m->second.size(); i++)
-                if (decimal_int(m->second[i], want) && args.count(N_MULTI) > i &&
-                    args.as<int>(N_MULTI, i) != static_cast<int>(want))
-                    out.push_back({ "typed-access", "as<int>(multi," + std::to_string(i) + ") for text '" + m->second[i] +
-                                                        "' gives " + std::to_string(args.as<int>(N_MULTI, i)) });
+            for (size_t i = 0; i < m->second.size() && args.count(N_MULTI) > i; i++)
+            {
+                Dec d = decimal(m->second[i]);
+                if (d.fits_int && args.as<int>(N_MULTI, i) != static_cast<int>(d.ll))
+                    out.push_back({ "typed-access", "as<int>(multi," + std::to_string(i) + ") for text '" + m->second[i] + "' gives " + std::to_string(args.as<int>(N_MULTI, i)) });
+                if (d.fits_ull && args.as<unsigned long long>(N_MULTI, i) != d.ull)
+                    out.push_back({ "typed-access", "as<unsigned long long>(multi," + std::to_string(i) + ") for text '" + m->second[i] + "' gives " +
+                                                        std::to_string(args.as<unsigned long long>(N_MULTI, i)) });
+            }
     };
     return chk;
 }
@@ -227,20 +253,30 @@ int main(int argc, char** argv)
     std::vector<Plan> plans;
     std::vector<std::string> v6 = { "x", "", "a=b", "a\nb", "-5", "12" };
     std::vector<std::string> v5 = { "x", "", "a=b", "-7", "--x" };
-    std::vector<std::string> v12 = { "x", "", "a=b", "a b", "\xc3\xa9\xff", "a\nb", "-5", "--x", "-", "12", "007", "--" };
+    std::vector<std::string> v12 = { "x", "", "a=b", "a b", "\xc3\xa9\xff", "a\nb", "-5", "--x", "-", "12", "007", "--", "18446744073709551614", "-9223372036854775808", "2.5" };
     if (!a.thorough())
         plans = { { a.asan() ? 2 : 3, v6 }, { a.asan() ? 1 : 2, v12 } };
     else
+    {
         plans = { { a.asan() ? 3 : 4, v5 }, { a.asan() ? 2 : 3, v12 } };
+        if (!a.asan())
+            plans.push_back({ 5, { "x", "", "-5" } });
+    }
 
     auto sh = sharded(a, "C02");
     sh.walk = [&](mc::Ctx& ctx) {
-        for (int variant = 0; variant < 3; variant++)
+        for (int variant = 0; variant < 4; variant++)
         {
             int shorts = variant != 1;
             N_MULTI = variant == 2 ? "opt-x" : "multi";
             N_UGG = variant == 2 ? "toggle" : "ugg";
             Decl D = declaration(shorts);
+            if (variant == 3)
+            {
+                // the second toggle and the multi-option live in named groups (bundles then span groups)
+                D.items[3].group = "danger";
+                D.items[1].group = "build";
+            }
             for (auto& plan : plans)
             {
                 std::vector<AItem> types;
